@@ -90,6 +90,11 @@ T['smem_x2'] = "s_load_dwordx2 s[24:25], s[8:9], 0x20\n s_waitcnt lgkmcnt(0)\n s
 T['smem_x4'] = "s_load_dwordx4 s[24:27], s[10:11], 0x40\n s_waitcnt lgkmcnt(0)\n s_add_u32 s22, s24, s27\n s_xor_b32 s22, s22, s26"
 T['smem_x8'] = "s_load_dwordx8 s[24:31], s[8:9], 0x100\n s_waitcnt lgkmcnt(0)\n s_add_u32 s23, s24, s31\n s_xor_b32 s23, s23, s28"
 T['smem_x16'] = "s_load_dwordx16 s[24:39], s[10:11], 0x200\n s_waitcnt lgkmcnt(0)\n s_add_u32 s21, s24, s39\n s_xor_b32 s21, s21, s32"
+# scalar loads that straddle a 64-byte line at a point that is not their midpoint (in is 64-byte aligned)
+T['smem_x2_cross'] = "s_load_dwordx2 s[24:25], s[8:9], 0x3c\n s_waitcnt lgkmcnt(0)\n s_xor_b32 s21, s24, s25"
+T['smem_x4_cross'] = "s_load_dwordx4 s[24:27], s[8:9], 0x34\n s_waitcnt lgkmcnt(0)\n s_add_u32 s22, s24, s27\n s_xor_b32 s22, s22, s26\n s_add_u32 s22, s22, s25"
+T['smem_x8_cross'] = "s_load_dwordx8 s[24:31], s[10:11], 0x38\n s_waitcnt lgkmcnt(0)\n s_add_u32 s23, s24, s31\n s_xor_b32 s23, s23, s28\n s_add_u32 s23, s23, s26\n s_xor_b32 s23, s23, s30"
+T['smem_x16_cross'] = "s_load_dwordx16 s[24:39], s[8:9], 0x74\n s_waitcnt lgkmcnt(0)\n s_add_u32 s21, s24, s39\n s_xor_b32 s21, s21, s32\n s_add_u32 s21, s21, s27\n s_xor_b32 s21, s21, s36"
 T['smem_sgpr_off'] = "s_mov_b32 s24, 0x24\n s_load_dword s22, s[8:9], s24\n s_waitcnt lgkmcnt(0)"
 # --- FLAT loads (in), aligned / unaligned / line crossing (lane 15 with +3 crosses a 64-byte line)
 for name, op, dst in [('ubyte','flat_load_ubyte','v22'), ('sbyte','flat_load_sbyte','v22'), ('ushort','flat_load_ushort','v23'), ('sshort','flat_load_sshort','v23'), ('dword','flat_load_dword','v22')]:
